@@ -218,10 +218,17 @@ func drawColumns(w *simrt.Tape, name string, nSets int) (cols [][]float64, maxDi
 			maxDim = 6 + w.Choose(43) // every fifth table is long (up to 48 rows)
 		}
 	}
+	// one set uses the full table, so FindDimensions == maxDim; it is not always the first one (with
+	// more sets than cells it may be a set that no cell uses: the layout of the parameter rows is
+	// still the one the full table implies)
+	fullAt := 0
+	if maxDim > 0 && nSets > 1 && w.Bool(50) {
+		fullAt = w.Choose(nSets)
+	}
 	for j := 0; j < nSets; j++ {
 		force := 0
-		if j == 0 && maxDim > 0 {
-			force = maxDim // at least one cell uses the full table, so FindDimensions == maxDim
+		if j == fullAt && maxDim > 0 {
+			force = maxDim
 		}
 		var c []float64
 		if corner {
